@@ -101,7 +101,7 @@ class is_signature_row:
         node, kind = node_inputs(g, ['SimpleToken'])
         return {'cls': Exporter, 'node': node}
 
-    modifies = ()
+    modifies = ('self.**',)     # the exporter's own private state (a cache) is not part of any property
 
     def post_signature_family(result, node):
         c = node.token.category
@@ -117,7 +117,7 @@ class retrieve_empty_token:
             node = mk_node(g, None, None)
         return {'cls': Exporter, 'node': None if shape == 'none' else node}
 
-    modifies = ()
+    modifies = ('self.**',)     # the exporter's own private state (a cache) is not part of any property
 
     def post_placeholder(result, node):
         if node is None or node.token is None:
@@ -136,7 +136,7 @@ class compute_header_type:
         node, kind = node_inputs(g, ['SimpleToken', 'header', 'note'])
         return {'self': g.new(Exporter, {}, ()), 'node': node}
 
-    modifies = ()
+    modifies = ('self.**',)     # the exporter's own private state (a cache) is not part of any property
 
     def post_header(result, node):
         return result is header_of(node)
@@ -154,7 +154,7 @@ class export_token:
         g.assume(kind != 'chord' or node.last_signature_nodes.nodes.get('ClefToken') is not None)
         return {'self': g.new(Exporter, {}, ()), 'node': node, 'options': mk_options(g)}
 
-    modifies = ()
+    modifies = ('self.**',)     # the exporter's own private state (a cache) is not part of any property
 
     def requires(node, options):
         # basic encodings: C04's domain (the selection keeps a duration / pitch part of every note)
@@ -188,7 +188,7 @@ class append_row:
         g.assume(kind != 'chord' or node.last_signature_nodes.nodes.get('ClefToken') is not None)
         return {'self': g.new(Exporter, {}, ()), 'document': None, 'node': node, 'options': mk_options(g), 'row': row_prefix(g)}
 
-    modifies = ('row',)
+    modifies = ('row', 'self.**')
 
     def requires(node, options):
         enc = options.kern_type.name
